@@ -5,6 +5,10 @@ abstract text; MC_CWLBinding enumerates families of tools (1..3 bound inputs x e
 shapes; arguments; ShellCommandRequirement with shellQuote: false; stdin/stdout/stderr; EnvVarRequirement) and
 checks the sanity theorems of the transcription; Gen_CWLBinding serialises [tool, expected argv/env/redirections].
 Thorough: larger random tools (up to 6 inputs + 3 arguments) by simulation.
+Steps (families jobs-*): ONE tool description executed for 2..3 jobs whose values and value shapes differ
+(CWLBinding "Steps": what job j receives is what the reference gives that job ALONE; HOME / TMPDIR /
+$(runtime.*) are the job's own directories): bound by running the tool scattered over the jobs under StreamFlow
+(one CWLCommand object, several execute() calls) and comparing every job with cwltool running that job alone.
 Binding: every enumerated tool is given concrete text (character classes), rendered to a CWL v1.2
 CommandLineTool whose baseCommand is a probe script, and run (a) with cwltool in-process -- THE ORACLE: a
 specification/cwltool disagreement is a specification error (machinery error, exit 2, never a violation) -- and
@@ -23,19 +27,21 @@ import multiprocessing
 
 LEVEL = "translation_validation"
 
-FAMILIES = ["single", "noshellq", "order", "quirk", "shell", "streams"]
+FAMILIES = ["single", "noshellq", "order", "quirk", "shell", "streams",
+            "jobs-single", "jobs-streams", "jobs-args", "jobs-multi", "jobs-shell"]
 
 
 # ---------------------------------------------------------------------------------------------------------
 # variants: which concrete text every slot of a tool gets
 # ---------------------------------------------------------------------------------------------------------
-def _assign(cb, tool, mode, k, rr):
+def _assign(cb, tool, mode, k, rr, avoid=None):
     """-> (text: {slot key: content}, classes: {slot key: class}, hot slot key or None).
 
     mode "hot": one slot (the k-th among those whose content is free) gets the next character class of a
-    global round-robin, every other slot is plain; mode "mix": every free slot gets a class of its own."""
+    global round-robin, every other slot is plain; mode "mix": every free slot gets a class of its own.
+    avoid(slot key) -> True: never the hot slot."""
     slots = cb.slots_of(tool)
-    free = [s for s in slots if s[2] == "any" or s[1] == "int"]
+    free = [s for s in slots if (s[2] == "any" or s[1] == "int") and not (avoid and avoid(s[0]))]
     text, classes, hot = {}, {}, None
     if mode == "hot" and free:
         hot = free[k % len(free)]
@@ -54,6 +60,42 @@ def _assign(cb, tool, mode, k, rr):
     if ("stdout",) in text and text.get(("stderr",)) == text[("stdout",)]:
         text[("stderr",)] = "e" + text[("stderr",)]
     return text, classes, (hot[0] if hot else None)
+
+
+def _assign_step(cb, c, k, rr):
+    """Concrete text of every job of a step: the text of the DOCUMENT (prefixes, separators, literal valueFrom,
+    argument strings, envValues, stdout/stderr names) is that of job 1 (one hot slot, like a single tool);
+    the VALUES of the later jobs are plain text different from every other job's, except that the first string
+    value of a scalar input gets the next character class of the round-robin.
+    -> list of {"tool", "exp", "text", "classes", "hot"}"""
+    tools = [c["tool"]] + [cb.with_vals(c["tool"], vals) for vals in c["more"]]
+    exps = [c["exp"]] + list(c["expmore"])
+    # (text of a bound ARRAY parameter stays inert: with special text there the step fails as a whole or differs
+    #  everywhere because of the listed finding C30-array-binding-not-shell-quoted, and nothing else would be seen)
+    arrays = {f["name"] for f in c["tool"]["inputs"] if f["ty"].endswith("[]") and (f["b"]["has"] or f["ib"]["has"])}
+    text1, classes1, hot1 = _assign(cb, tools[0], "hot", k, rr,
+                                    avoid=lambda key: len(key) >= 3 and key[1] in ("in", "item") and key[2] in arrays)
+    jobs = [{"tool": tools[0], "exp": exps[0], "text": text1, "classes": classes1, "hot": hot1}]
+    for j, (t, e) in enumerate(zip(tools[1:], exps[1:]), start=1):
+        text, classes, hot = {}, {}, None
+        scalar = {f["name"] for f in t["inputs"] if f["val"]["t"] == "str"}
+        for n, (key, kind, sem) in enumerate(cb.slots_of(t)):
+            if kind in ("doc", "sname"):
+                text[key], classes[key] = text1[key], classes1[key]
+                continue
+            if sem != "any" and kind != "int":
+                cls = sem
+            elif hot is None and kind == "value" and key[0] == "val" and key[2] in scalar:
+                lst = cb.classes_for(kind)
+                rr[kind] = rr.get(kind, 0) + 1
+                cls = lst[(rr[kind] + k + j) % len(lst)]
+                hot = key
+            else:
+                cls = "plain"
+            text[key] = cb.text_for(kind, sem, cls, n + 30 * j, key[0])
+            classes[key] = cls
+        jobs.append({"tool": t, "exp": e, "text": text, "classes": classes, "hot": hot})
+    return jobs
 
 
 # ---------------------------------------------------------------------------------------------------------
@@ -172,9 +214,17 @@ def _positions_tie(tool):
     return len(pos) != len(set(pos))
 
 
-def compare(ctx, cb, case, res, report=True):
+RT_WHAT = {"<OUTDIR>": "own-output-directory", "<TMPDIR>": "own-temp-directory",
+           "<OUTDIR of another job>": "output-directory-of-another-job", "<TMPDIR of another job>": "temp-directory-of-another-job",
+           "<TMPDIR shared with another job>": "shared-with-another-job", "<TMPDIR: not a directory>": "not-a-directory",
+           "<unset>": "unset"}
+
+
+def compare(ctx, cb, case, res, report=True, step=None):
     """Compare the oracle's and StreamFlow's observations of one concrete case.  Returns the list of
-    (signature, what) differences (reported through ctx.violation when `report`)."""
+    (signature, what) differences (reported through ctx.violation when `report`).
+    step: None, or {"index": j, "n": number of jobs, "case": the step} when the case is job j of a step (the
+    signature then ends with ':step-of-<n>-jobs' and the detail holds the whole step for the replay)."""
     tool, exp, classes, hot = case["tool"], case["exp"], case["classes"], case["hot"]
     text = case["text"]
     want = cb.expected_of(exp, tool, text)
@@ -197,15 +247,20 @@ def compare(ctx, cb, case, res, report=True):
     def add(sig, what, extra=None):
         if taint:
             sig += ":with=" + taint
+        if step:
+            sig += ":step-of-%d-jobs" % step["n"]
+            what = "job %d of %d of one step: %s" % (step["index"] + 1, step["n"], what)
         diffs.append((sig, what))
         if report:
             d = {"kind": "case", "family": case["fam"], "tool": tool, "exp": exp,
                  "text": [[list(k), v] for k, v in text.items()],
                  "classes": [[list(k), v] for k, v in classes.items()], "hot": list(hot) if hot else None,
                  "explicit_zero": case["explicit_zero"], "document": res.get("doc"), "job": res.get("job"),
-                 "reference": {k: ref.get(k) for k in ("argv", "env", "stdin", "stdout", "stderr", "rc")},
-                 "streamflow": {k: sf.get(k) for k in ("argv", "env", "stdin", "stdout", "stderr", "rc", "log")}}
+                 "reference": {k: ref.get(k) for k in ("argv", "env", "rt", "stdin", "stdout", "stderr", "rc")},
+                 "streamflow": {k: sf.get(k) for k in ("argv", "env", "rt", "HOME", "TMPDIR", "cwd", "stdin", "stdout", "stderr", "rc", "log")}}
             d.update(extra or {})
+            if step:
+                d.update(kind="step", job_index=step["index"], step=_step_detail(step["case"]), workflow=res.get("wf"))
             ctx.violation(sig, d, what)
 
     if not sf["ok"]:
@@ -238,8 +293,17 @@ def compare(ctx, cb, case, res, report=True):
         for nme in names[:1]:
             e = next((x for x in exp["env"] if x["name"] == nme), None)
             cls = _word_class(e["text"], classes, cb) if e else "undeclared"
+            if e and any(a["k"] == "rt" for a in e["text"]):        # $(runtime.outdir) / $(runtime.tmpdir)
+                cls = "runtime.%s=%s" % (e["text"][0]["of"], RT_WHAT.get(sf["env"].get(nme), "other-directory"))
             add("env-differs:EnvVarRequirement:class=%s" % cls,
                 "environment variable %s: reference %r, StreamFlow %r" % (nme, ref["env"].get(nme), sf["env"].get(nme)))
+    # the runtime environment: HOME is the job's own output directory, TMPDIR its own temporary directory
+    for nme in ("HOME", "TMPDIR"):
+        if sf.get("rt", {}).get(nme) != want["rt"][nme]:
+            got = sf.get("rt", {}).get(nme)
+            add("env-differs:%s:%s" % (nme, RT_WHAT.get(got, "other-directory")),
+                "%s of the process is %r (%s); the reference sets it to the job's %s; the process runs in %r"
+                % (nme, sf.get(nme), RT_WHAT.get(got, "neither of the job's directories"), RT_WHAT[want["rt"][nme]], sf.get("cwd")))
     if ref.get("stdin") != sf.get("stdin"):
         add("stdin-differs:stdin:class=%s" % classes.get(("path", "in", exp["stdin"], 0), "none"),
             "stdin content: reference %r, StreamFlow %r" % (ref.get("stdin"), sf.get("stdin")))
@@ -255,6 +319,44 @@ def compare(ctx, cb, case, res, report=True):
     return diffs
 
 
+def _step_detail(sc):
+    return {"id": sc["id"], "fam": sc["fam"], "explicit_zero": sc["explicit_zero"],
+            "jobs": [{"tool": jb["tool"], "exp": jb["exp"], "text": [[list(k), v] for k, v in jb["text"].items()],
+                      "classes": [[list(k), v] for k, v in jb["classes"].items()], "hot": list(jb["hot"]) if jb["hot"] else None}
+                     for jb in sc["jobs"]]}
+
+
+def _step_from_detail(d):
+    return {"id": d["id"], "fam": d["fam"], "explicit_zero": d["explicit_zero"],
+            "jobs": [{"tool": jb["tool"], "exp": jb["exp"], "text": {tuple(k): v for k, v in jb["text"]},
+                      "classes": {tuple(k): v for k, v in jb["classes"]}, "hot": tuple(jb["hot"]) if jb["hot"] else None}
+                     for jb in d["jobs"]]}
+
+
+def _job_case(sc, j):
+    """Job j of a step as a case of its own (what compare / spec_vs_oracle work on)."""
+    jb = sc["jobs"][j]
+    return {"id": "%s#%d" % (sc["id"], j + 1), "fam": sc["fam"], "tool": jb["tool"], "exp": jb["exp"], "text": jb["text"],
+            "classes": jb["classes"], "hot": jb["hot"], "explicit_zero": sc["explicit_zero"]}
+
+
+def _job_result(r, j):
+    return {"ref": r["jobs"][j]["ref"], "sf": r["jobs"][j]["sf"], "doc": r.get("doc"), "job": (r.get("job") or [None] * (j + 1))[j],
+            "wf": r.get("wf")}
+
+
+def compare_step(ctx, cb, sc, r, report=True):
+    """Every job of the step against the reference's answer for that job alone."""
+    n = len(sc["jobs"])
+    diffs = []
+    all_fail = all(not r["jobs"][j]["sf"]["ok"] for j in range(n))
+    for j in range(n):
+        diffs += compare(ctx, cb, _job_case(sc, j), _job_result(r, j), report, step={"index": j, "n": n, "case": sc})
+        if all_fail:        # the step failed as a whole: one report
+            break
+    return diffs
+
+
 def spec_vs_oracle(cb, case, res):
     """None when the specification's expected answer equals what cwltool gave the probe, else a description."""
     want = cb.expected_of(case["exp"], case["tool"], case["text"])
@@ -267,6 +369,9 @@ def spec_vs_oracle(cb, case, res):
         return "argv: specification %r, cwltool %r" % (canon, got)
     if ref["env"] != want["env"]:
         return "env: specification %r, cwltool %r" % (want["env"], ref["env"])
+    if ref.get("rt") != want["rt"]:
+        return "runtime environment: specification %r, cwltool %r (HOME=%r TMPDIR=%r cwd=%r)" % (want["rt"], ref.get("rt"), ref.get("HOME"),
+                                                                                            ref.get("TMPDIR"), ref.get("cwd"))
     if ref["stdin"] != want["stdin"]:
         return "stdin: specification %r, cwltool %r" % (want["stdin"], ref["stdin"])
     if want["stdout"] is not None and ref.get("stdout") != "PROBE-STDOUT\n":
@@ -287,7 +392,10 @@ def _run_cases(ctx, cb, cases, workers):
     """Run all concrete cases; returns {id: result}."""
     results = {}
     t0 = time.time()
-    payload = [{"id": c["id"], "tool": c["tool"], "text": [[list(k), v] for k, v in c["text"].items()],
+    payload = [{"id": c["id"], "explicit_zero": c["explicit_zero"], "timeout": 900,
+                "jobs": [{"tool": jb["tool"], "text": [[list(k), v] for k, v in jb["text"].items()]} for jb in c["jobs"]]}
+               if c.get("jobs") else
+               {"id": c["id"], "tool": c["tool"], "text": [[list(k), v] for k, v in c["text"].items()],
                 "explicit_zero": c["explicit_zero"], "timeout": 900} for c in cases]
     ex = _pool(ctx, cb, workers)
     try:
@@ -323,6 +431,8 @@ def _features_of(tool):
             fs.add(k)
     if tool["env"]:
         fs.add("EnvVarRequirement")
+    if any(e["kind"] == "rt" for e in tool["env"]):
+        fs.add("EnvVarRequirement:runtime")
     if tool["shell"]:
         fs.add("ShellCommandRequirement")
     return fs
@@ -367,11 +477,16 @@ def run(ctx):
     from vh.sut import cwlbind as cb
     _probe_oracles(ctx)
     ctx.rule = ("TLC enumerates tool descriptions (families single/noshellq/order/quirk/shell/streams; thorough: + random "
-                "tools of up to 6 inputs and 3 arguments by simulation) and evaluates the expected argv/env/redirections; "
+                "tools of up to 6 inputs and 3 arguments by simulation) and STEPS (families jobs-*: one description, 2..3 jobs "
+                "with different values / value shapes, compared job by job) and evaluates the expected argv/env/redirections "
+                "and runtime environment (HOME, TMPDIR, $(runtime.*)); "
                 "each tool is instantiated with concrete text (one 'hot' slot per variant gets the next character class, "
                 "thorough: also all-slots-special variants) and run under cwltool (oracle; specification must agree) and "
                 "StreamFlow; a case is non-trivial when the tool binds at least one non-null value")
     cases = _generate(ctx)
+    # canonical order: the order in which TLC enumerates a set depends on the order in which it interned the strings
+    # of the specification, i.e. on unrelated edits; the seed-driven selection below must not
+    cases.sort(key=lambda c: json.dumps([c["tool"], c.get("more")], sort_keys=True))
     by_fam = {}
     for c in cases:
         by_fam.setdefault(c["fam"], []).append(c)
@@ -385,7 +500,8 @@ def run(ctx):
         by_fam = {f: [c for c in cases if c["fam"] == f] for f in FAMILIES}
     rng = ctx.rng("select")
     if ctx.quick:
-        quota = {"single": 70, "noshellq": 24, "order": 40, "quirk": 4, "shell": 30, "streams": 32}
+        quota = {"single": 70, "noshellq": 24, "order": 40, "quirk": 4, "shell": 30, "streams": 32,
+                 "jobs-single": 8, "jobs-streams": 5, "jobs-args": 3, "jobs-multi": 3, "jobs-shell": 2}
         chosen = []
         for f in FAMILIES:
             lst = list(by_fam[f])
@@ -394,7 +510,14 @@ def run(ctx):
         modes = ["hot"]
         ctx.exhaustive = False
     else:
-        chosen = list(cases)
+        # every enumerated and simulated tool; of the steps a stratified sample (each costs 2..3 reference runs + a workflow)
+        squota = {"jobs-single": 80, "jobs-streams": 40, "jobs-args": 30, "jobs-multi": 30, "jobs-shell": 20}
+        chosen = [c for c in cases if c["fam"] not in squota]
+        for f in FAMILIES:
+            if f in squota:
+                lst = list(by_fam[f])
+                rng.shuffle(lst)
+                chosen += lst[:squota[f]]
         modes = ["hot", "mix"]
         ctx.exhaustive = True
     limit = int(os.environ.get("VERIF_C30_LIMIT", "0") or 0)
@@ -406,6 +529,10 @@ def run(ctx):
     concrete = []
     for n, c in enumerate(chosen):
         seen_texts = set()
+        if c.get("more"):       # a step: one text variant (the jobs already differ from each other)
+            concrete.append({"id": "%s-%d" % (c["fam"], n), "fam": c["fam"], "jobs": _assign_step(cb, c, n, rr),
+                             "explicit_zero": n % 3 == 0})
+            continue
         for v, mode in enumerate(modes):
             text, classes, hot = _assign(cb, c["tool"], mode, n + v * 7, rr)
             tkey = json.dumps(sorted((list(k), x) for k, x in text.items()))
@@ -421,9 +548,39 @@ def run(ctx):
     # --- verdicts
     disagreements = []
     feats, cls_seen = {}, {}
+    steps = jobs_run = shape_changes = 0
     for c in concrete:
         r = results[c["id"]]
         ctx.require("harness_error" not in r, "harness error while running %s: %s" % (c["id"], r.get("harness_error")))
+        if c.get("jobs"):
+            n = len(c["jobs"])
+            ctx.require(all(x["ref"].get("rc") != "timeout" and x["sf"].get("rc") != "timeout" for x in r["jobs"]),
+                        "watchdog expired while running %s (machinery, not a verdict)" % c["id"])
+            bad = [(j, d) for j in range(n) for d in [spec_vs_oracle(cb, _job_case(c, j), _job_result(r, j))] if d is not None]
+            ctx.disagreements_checked += n
+            if bad:
+                j, d = bad[0]
+                disagreements.append((_job_case(c, j), d, _job_result(r, j)))
+                continue
+            steps += 1
+            jobs_run += n
+            shapes = {json.dumps([f["val"] for f in jb["tool"]["inputs"]], sort_keys=True) for jb in c["jobs"]}
+            shape_changes += len(shapes) > 1
+            ctx.case(c["id"] + ":" + json.dumps([sorted((list(k), v) for k, v in jb["classes"].items()) for jb in c["jobs"]]),
+                     nontrivial=any(jb["exp"]["argv"] or jb["exp"]["env"] for jb in c["jobs"]))
+            ctx.impl_trace(1)
+            for jb in c["jobs"]:
+                for f in _features_of(jb["tool"]):
+                    feats[f] = feats.get(f, 0) + 1
+                for cl in set(jb["classes"].values()):
+                    cls_seen[cl] = cls_seen.get(cl, 0) + 1
+            feats["step:%d-jobs" % n] = feats.get("step:%d-jobs" % n, 0) + 1
+            diffs = compare_step(ctx, cb, c, r)
+            if not diffs and not any("step" in x for x in ctx.samples) and len(ctx.samples) < 6:
+                ctx.sample({"family": c["fam"], "step": True, "document": r["doc"], "jobs": r["job"],
+                            "argv_both_runners": [x["sf"]["argv"] for x in r["jobs"]],
+                            "env_both_runners": [dict(x["sf"]["env"], **x["sf"]["rt"]) for x in r["jobs"]]})
+            continue
         ctx.require(r["ref"].get("rc") != "timeout" and r["sf"].get("rc") != "timeout",
                     "watchdog expired while running %s (machinery, not a verdict)" % c["id"])
         d = spec_vs_oracle(cb, c, r)
@@ -445,6 +602,9 @@ def run(ctx):
     ctx.extra["features_exercised"] = dict(sorted(feats.items()))
     ctx.extra["character_classes"] = dict(sorted(cls_seen.items()))
     ctx.count("concrete_runs", len(concrete))
+    ctx.count("steps_run", steps)
+    ctx.count("jobs_of_steps_run", jobs_run)
+    ctx.count("steps_whose_jobs_differ_in_shape", shape_changes)
     if disagreements:
         c, d, r = disagreements[0]
         for c2, d2, r2 in disagreements[1:12]:
@@ -457,8 +617,11 @@ def run(ctx):
     need = ["prefix", "separate=false", "itemSeparator", "valueFrom", "shellQuote=false", "item:prefix", "position",
             "arguments:str", "arguments:rec", "stdin", "stdout", "EnvVarRequirement", "ShellCommandRequirement",
             "value:null", "value:bool", "value:arr0", "value:arr2", "value:file", "value:int"]
+    need += ["step:2-jobs", "step:3-jobs", "EnvVarRequirement:runtime"]
     missing = [f for f in need if not feats.get(f)]
     ctx.require(dev or not missing, "vacuous run: features never exercised: %s" % missing)
+    ctx.require(dev or (steps >= 10 and shape_changes >= 4),
+                "vacuous run: only %d steps of several jobs (%d with jobs of different shapes)" % (steps, shape_changes))
     miss_cls = [k for k in ("plain", "space", "squote", "dquote", "dollar", "backtick", "backslash", "newline", "semicolon",
                             "glob", "nonascii", "empty", "dash") if not cls_seen.get(k)]
     ctx.require(dev or not miss_cls, "vacuous run: character classes never used: %s" % miss_cls)
@@ -468,12 +631,27 @@ def run(ctx):
         "File arguments are compared up to the staging directory (basename and surrounding text must be equal)",
         "words that are not shell-quoted use five fixed contents whose lexing by sh is part of the specification",
         "local execution only (LocalConnector, /bin/sh); literal text of the CWL document never contains '$(' or '${'",
+        "a job's output directory is the directory its process starts in; its temporary directory is what $(runtime.tmpdir) "
+        "evaluates to when the tool publishes it, else $TMPDIR (then only required to be a directory of the job's own)",
+        "steps: the several jobs of one tool are the elements of a scatter (dotproduct over all inputs); the order in which "
+        "StreamFlow executes them is not controlled (the specification makes the answer independent of it); the oracle runs every job alone",
     ]
 
 
 def replay(ctx, data):
     from vh.sut import cwlbind as cb
     d = data["detail"]
+    if d.get("kind") == "step":
+        sc = _step_from_detail(d["step"])
+        sc["id"] = "replay"
+        res = _run_cases(ctx, cb, [sc], 1)["replay"]
+        ctx.require("harness_error" not in res, "harness error: %s" % res.get("harness_error"))
+        for j in range(len(sc["jobs"])):
+            dis = spec_vs_oracle(cb, _job_case(sc, j), _job_result(res, j))
+            ctx.require(dis is None, "specification disagrees with cwltool on job %d of the replayed step: %s" % (j + 1, dis))
+        diffs = compare_step(ctx, cb, sc, res)
+        print("replayed: %s" % ("; ".join(s for s, _ in diffs) or "no difference between the reference and StreamFlow"))
+        return
     if d.get("kind") != "case":
         return run(ctx)
     text = {tuple(k): v for k, v in d["text"]}
